@@ -1,0 +1,23 @@
+//go:build verif
+
+package filesystem
+
+// Contracts for the gvc verifier (/verif). Comment-only; never compiled into
+// a normal build.
+//
+// Property C31, status side: the hash a worktree file is compared by is that
+// of the blob `add` would store, so the CRLF-to-LF converter is installed under
+// the same conditions as in Worktree.fillEncodedObjectFromFile (git convert.c
+// crlf_to_git): statistics of the whole file that is hashed next, not binary.
+// Known finding F24: no has_crlf_in_index rule.
+//gvc:func (*node).doCalculateHashForRegular
+//gvc:  props C31
+//gvc:  theory int
+//gvc:  opt coarse
+//gvc:  opt frame args
+//gvc:  requires nn: n.fs != nil
+//gvc:  sink NewLFWriter requires asgit: !spec_is_binary(stat.NUL, stat.LoneCR, stat.Printable, stat.NonPrintable)
+//gvc:  sink NewLFWriter requires whole: f.#pos == 0 && forall(k, 0, f.#n, f.#data[k] != 0 && (f.#data[k] == '\r' ==> k + 1 < f.#n && f.#data[k + 1] == '\n'))
+//gvc:  sink NewLFWriter requires safecrlf: stat.CRLF == 0 || !spec_index_has_cr(strid(n.path))
+//gvc:  kf F24 safecrlf: stat.CRLF > 0 && spec_index_has_cr(strid(n.path))
+//gvc:end
